@@ -21,6 +21,9 @@ from symnp.core import SVal, SBool, SInt, SFloat, Unsupported   # noqa: E402
 from symnp.arr import SArr, _raw          # noqa: E402
 
 EVID = os.path.join(VERIF, 'evidence')
+if os.environ.get('VERIF_REPO') and os.path.realpath(os.environ['VERIF_REPO']) != '/repo':
+    # a run against another checkout (seeded worktree) must not overwrite the committed evidence of /repo
+    EVID = os.path.join('/tmp', 'verif_evidence_%s' % hashlib.sha1(os.path.realpath(os.environ['VERIF_REPO']).encode()).hexdigest()[:10])
 REPLAYS = os.path.join(EVID, 'replays')
 
 
